@@ -47,7 +47,18 @@ RULE = ('cases = calls of the real functions through the public names, positiona
         'at the ends of their ranges, Z*R above and exactly at 0.7; n x m products past 2**22 (2049 queries x 2049 nodes, '
         'step fit of 2049 samples). A few inputs past 2**16 per run (queries, nodes, series, period arrays). One object for two parameters (nodes as '
         'queries / values), the same object in consecutive calls, two inputs of one shape back to back. A fixed grid of '
-        '[0, 6.5] s (distinct by construction) is scanned for jumps with bisection down to 1e-12.')
+        '[0, 6.5] s (distinct by construction) is scanned for jumps with bisection down to 1e-12. Round 3 (checklist 24-27): '
+        'f(A); f(B); f(A) for each of the eight functions with B another draw of the same recipe (same shapes / other shapes), '
+        'equal to A except for ONE argument, or written into the very array object that held A (work buffer refilled in '
+        'place), options at non-default values (mode, pow, dir up / down, y given / None, ind None, classes, Z R N), trailing '
+        'parameters by keyword in a third of the calls, fresh temporaries of one size in a row; inputs outside the domain for '
+        'every function (queries below the first node as array / list / tuple, negative or non-finite periods in containers, '
+        'unknown classes / modes / directions, windows <= 0, > len or not integer-valued, powers outside {1, 2}, split samples at '
+        'the ends, non-finite samples, empty / 2-d series, tables with the wrong number of rows, scalar forms outside a '
+        'signature) between two calls with in-domain arguments; queries 1e-9..1e-3 of the span next to the end nodes / any '
+        'node, periods 1e-12..1e-3 (relative) next to every boundary, displacements 1e-11..1e-3 below and above the corner, '
+        'Z R N 1e-9..1e-3 inside the ends of their ranges; interp2d queries and nodes as Python lists / tuples, the table as '
+        'nested list / tuple; silent (all-zero) and strictly one-signed series, all-zero tables / node values / period containers.')
 ASSUMPTIONS = ['node sets finite and monotone; unsorted node sets are counted, not judged; repeated nodes: interp_left may take the '
                'value of any of the equal nodes; interp2d with a repeated node is outside the "node sets" of the statement '
                '(coordinator ruling): generated, counted, only purity / no-exception / repeatability apply; strictly decreasing node '
@@ -57,7 +68,15 @@ ASSUMPTIONS = ['node sets finite and monotone; unsorted node sets are counted, n
                'of the series (largest partial sum / n*max|x|^p) because the anchored algorithms (running-sum differences, padded '
                'triangle sums) cannot be more accurate than that - valid for every amplitude 1e-12..1e12 and offset generated',
                'a window width that is not integer-valued (dt/(dt/k) a hair off k) is outside "window sizes 1..len": counted only',
-               'interp2d arguments are numpy arrays with a 2-d table (its documented signature)',
+               'interp2d: queries x and nodes xf as 1-d numpy arrays, lists or tuples of real numbers (docstring: array_like), '
+               'judged alike; the 2-d table f as numpy array. The table as a nested list / tuple is array_like too but raises '
+               'TypeError on the clean tree (f[index array]): generated, routed to the observation "pending-finding: interp2d '
+               'table f as nested list ..." until the coordinator rules; if a tree accepts it, it is judged like an array',
+               'results depend on the arguments only: f(A); f(B); f(A) - the third result equals the first BIT-FOR-BIT (same '
+               'argument objects, same process, deterministic NumPy kernels), also when f(B) raised or B was outside the domain, '
+               'also for calls whose value the statement does not fix (dir = up / down, repeated nodes)',
+               'a call that raises must leave every argument bit-for-bit as it was (clause args-unchanged-after-raise), for '
+               'rejected inputs and for any other exception alike; values returned for inputs outside the domain are never judged',
                'interp_left queries below the first node are rejected by the function (outside the domain)',
                'centred window of width w (mode centre / center): samples i - floor(w/2) .. i + ceil(w/2) - 1 with replicated edges, '
                'i.e. for an EVEN width the extra sample lies before the current one - the convention of the clean tree (s = '
@@ -86,6 +105,8 @@ ASSUMPTIONS = ['node sets finite and monotone; unsorted node sets are counted, n
                '"continuous to table precision" = one-sided jump <= 0.5 % (three significant digits in the tables)',
                'same-object histories of Signal objects (checklist line 5) do not apply: the eight functions are stateless',
                'oracle vf/oracles/helpers.py is correct (scalar code from the definitions)']
+C_REPEAT_NAME = 'f(A);f(B);f(A):third==first(bit-for-bit)'
+C_RAISE_NAME = 'args-unchanged-after-raise(bit-for-bit)'
 _MIN_QUICK = {'interp2d.inside==columnwise-linear': 3000, 'interp2d.on-node==table-row': 2000,
               'interp2d.outside==end-row': 2800, 'interp_left==value-at-greatest-node<=q': 2800,
               'interp_left.on-node-query': 4500, 'interp_left.scalar-query': 4000, 'interp_left.y=None->node-index': 4000,
@@ -97,7 +118,7 @@ _MIN_QUICK = {'interp2d.inside==columnwise-linear': 3000, 'interp2d.on-node==tab
               'c_h.continuous(boundaries)': 200, 'sd_nzs.continuous(boundaries)': 200, 'c_h.continuous(scan)': 10000,
               'sd_nzs.continuous(scan)': 10000, 't_eff==T_c*d/d_c': 2600, 't_eff(d_c*T/3)==T': 2400,
               't_eff.rejects-above-corner': 600, 'args-unchanged(bit-for-bit)': 110000,
-              'earlier-result-intact-after-next-call': 35000}
+              'earlier-result-intact-after-next-call': 35000, C_REPEAT_NAME: 8000, C_RAISE_NAME: 3000}
 # thorough = 10 x the random workload of quick and a 4 x finer continuity scan
 _MIN_THOROUGH = {k: 10 * v for k, v in _MIN_QUICK.items()}
 _MIN_THOROUGH.update({'c_h.continuous(boundaries)': 200, 'sd_nzs.continuous(boundaries)': 200,
@@ -146,11 +167,13 @@ LAYOUT = {}        # layout flags (read-only / strided / reversed / fortran) of 
 
 
 def _snap(v):
-    """Value of an argument at call entry (arrays and lists are copied; tuples and scalars are immutable)."""
+    """Value of an argument at call entry (arrays and lists are copied, nested rows too; scalars are immutable)."""
     if isinstance(v, np.ndarray):
         return v.copy()
     if isinstance(v, list):
-        return list(v)
+        return [_snap(t) if isinstance(t, (list, tuple, np.ndarray)) else t for t in v]
+    if isinstance(v, tuple) and any(isinstance(t, (list, tuple, np.ndarray)) for t in v):
+        return tuple(_snap(t) for t in v)
     return v
 
 
@@ -159,9 +182,10 @@ def _unchanged(now, snap):
     if isinstance(snap, np.ndarray):
         return isinstance(now, np.ndarray) and now.dtype == snap.dtype and now.shape == snap.shape \
             and now.tobytes() == snap.tobytes()
-    if isinstance(snap, list):
-        return isinstance(now, list) and len(now) == len(snap) and \
-            all(a is b or (type(a) is type(b) and a == b) for a, b in zip(now, snap))
+    if isinstance(snap, (list, tuple)):
+        return type(now) is type(snap) and len(now) == len(snap) and \
+            all((_unchanged(a, b) if isinstance(b, (list, tuple, np.ndarray)) else
+                 (a is b or (type(a) is type(b) and a == b))) for a, b in zip(now, snap))
     return True
 
 
@@ -231,13 +255,35 @@ def _judged(fn, checker):
     return post
 
 
+C_RAISE = C_RAISE_NAME
+C_REPEAT = C_REPEAT_NAME
+
+
+def _raised(fn, specific):
+    """exception hook: a call that raises (rejected input, or anything else) must leave every argument bit-for-bit as it
+    was - judged for every monitored function, then the function's own exception hook (if any) classifies the raise."""
+    def onex(args, kwargs, e, st):
+        global LAYOUT
+        if st is not None and isinstance(e, Exception):
+            live, snap = st
+            LAYOUT = _layout(live)
+            changed = [k for k in live if not _unchanged(live[k], snap[k])]
+            CTX.check(not changed, C_RAISE,
+                      lambda: dict(_arg_witness(fn, snap), changed=changed, after=dict((k, live[k]) for k in changed),
+                                   raised=repr(e)),
+                      '%s raised %r and left its argument(s) %s modified' % (fn, e, changed))
+        if specific is not None:
+            specific(args, kwargs, e, st)
+    return onex
+
+
 def _arg_witness(fn, snap):
     """Witness of a call in the form replay() understands (see the check_* functions)."""
     w = {'fn': fn, 'layout': LAYOUT}
     ren = {'z_factor': 'z', 'r_factor': 'r', 'n_factor': 'n'}
     for k, v in snap.items():
         w[ren.get(k, k)] = v
-        if k in ('x0', 'x', 'y', 'period'):
+        if k in ('x0', 'x', 'y', 'period', 'xf', 'f'):
             w[k + '_container'] = _cont(v)
         if k == 'values':
             w['container'] = _cont(v)
@@ -284,12 +330,57 @@ OBS_DECREASING_LEFT = ('interp_left: strictly decreasing node set (not handled b
                        'rejected, the others get the last node; not judged)')
 
 
+def _real_nd(v, ndim):
+    """ndarray of real numbers with `ndim` axes from an ndarray or a (nested) list / tuple of Python / numpy real numbers
+    ("array_like" of the docstring); None for anything else."""
+    if isinstance(v, np.ndarray):
+        a = v
+    elif isinstance(v, (list, tuple)):
+        try:
+            a = np.asarray(v)
+        except Exception:
+            return None
+    else:
+        return None
+    return a if (a.ndim == ndim and a.dtype.kind in 'fiu') else None
+
+
+PENDING_F_LIST = 'pending-finding: interp2d table f as nested list / tuple raises TypeError (docstring: f array_like)'
+
+
+def _interp2d_domain(x, xf, f):
+    xa, xfa, fa = _real_nd(x, 1), _real_nd(xf, 1), _real_nd(f, 2)
+    if xa is None or xfa is None or fa is None or fa.shape[0] != xfa.shape[0] or xa.size == 0 or xfa.size == 0 \
+            or fa.shape[1] == 0:
+        return None
+    return xa, xfa, fa
+
+
+def _exc_interp2d(args, kwargs, e, st):
+    """The table as a nested list / tuple with everything else in domain: the clean tree indexes f with an index array
+    (TypeError). Routed to an observation until the coordinator rules (repair or recorded finding)."""
+    if st is None:
+        return
+    a = st[1]
+    dom = _interp2d_domain(a['x'], a['xf'], a['f'])
+    if dom is None:
+        return
+    if isinstance(a['f'], (list, tuple)) and isinstance(e, TypeError) and _nodes_ok(_floats(dom[1])) \
+            and np.all(np.isfinite(dom[0])) and np.all(np.isfinite(dom[2])):
+        CTX.observe(PENDING_F_LIST)
+        _mark(e)
+
+
 def check_interp2d(ctx, x, xf, f, result):
-    if not (isinstance(x, np.ndarray) and isinstance(xf, np.ndarray) and isinstance(f, np.ndarray)) \
-            or x.ndim != 1 or xf.ndim != 1 or f.ndim != 2 or f.shape[0] != xf.shape[0] \
-            or x.dtype.kind not in 'fiu' or xf.dtype.kind not in 'fiu' or f.dtype.kind not in 'fiu':
+    dom = _interp2d_domain(x, xf, f)
+    if dom is None:
         ctx.observe('interp2d: call outside the documented signature (not judged)')
         return
+    x0_, xf0_, f0_ = x, xf, f
+    x, xf, f = dom
+    if not (isinstance(x0_, np.ndarray) and isinstance(xf0_, np.ndarray) and isinstance(f0_, np.ndarray)):
+        ctx.observe('interp2d: list / tuple argument(s) %s (judged)'
+                    % '/'.join(_cont(v) for v in (x0_, xf0_, f0_)))
     nodes = _floats(xf)
     qs = _floats(x)
     if _nodes_decreasing(nodes):
@@ -309,7 +400,8 @@ def check_interp2d(ctx, x, xf, f, result):
     # tolerance relative to the LOCAL scale: the rows that enter the value (and their neighbours), not the whole column
     loc = np.array(scales, dtype=float).reshape(len(qs), f.shape[1])
     got = np.asarray(result)
-    wit = lambda: {'fn': 'interp2d', 'x': x, 'xf': xf, 'f': f, 'got': got, 'expected': ref, 'layout': LAYOUT}
+    wit = lambda: {'fn': 'interp2d', 'x': x0_, 'xf': xf0_, 'f': f0_, 'x_container': _cont(x0_), 'xf_container': _cont(xf0_),
+                   'f_container': _cont(f0_), 'got': got, 'expected': ref, 'layout': LAYOUT}
     if got.shape != ref.shape:
         ctx.violation('interp2d.inside==columnwise-linear', wit(),
                       'interp2d returned shape %s, expected %s' % (got.shape, ref.shape))
@@ -336,12 +428,14 @@ def check_interp2d(ctx, x, xf, f, result):
                       nodes[:8]) if idx else (None, names, None, None, None, err, allowed, nodes[:8])))
 
 
-def _interp_left_domain(x0, x):
+def _interp_left_domain(x0, x, y=None):
     """(scalar?, queries, nodes) as floats, or None when the call is outside the domain."""
     scalar = not hasattr(x0, '__len__')
     try:
         qs = [float(x0)] if scalar else _floats(x0)
         nodes = _floats(x)
+        if y is not None and np.asarray(y).shape != (len(nodes),):
+            return None                                   # one value per node
     except Exception:
         return None
     if not qs or not _nodes_monotone(nodes) or not all(math.isfinite(q) for q in qs):
@@ -357,7 +451,7 @@ def _is_decreasing_arg(x):
 
 
 def check_interp_left(ctx, x0, x, y, result):
-    dom = _interp_left_domain(x0, x)
+    dom = _interp_left_domain(x0, x, y)
     if dom is None:
         ctx.observe(OBS_DECREASING_LEFT if _is_decreasing_arg(x) else
                     'interp_left: nodes not monotone / malformed call (not judged)')
@@ -409,7 +503,7 @@ def _exc_interp_left(args, kwargs, e, st):
         return
     a = st[1]
     x0, x, y = a['x0'], a['x'], a['y']
-    dom = _interp_left_domain(x0, x)
+    dom = _interp_left_domain(x0, x, y)
     if dom is None:
         CTX.observe(OBS_DECREASING_LEFT if _is_decreasing_arg(x) else
                     'interp_left: nodes not monotone / malformed call (not judged)')
@@ -715,7 +809,8 @@ def check_c_h(ctx, period, site_class, result):
 def check_sd(ctx, period, site_class, z, r, n, result):
     sc_ = _scalar(period)
     fac = [_scalar(v) for v in (z, r, n)]
-    if site_class not in SITE_CLASSES or sc_ is None or not math.isfinite(sc_[0]) or sc_[0] < 0 or None in fac:
+    if site_class not in SITE_CLASSES or sc_ is None or not math.isfinite(sc_[0]) or sc_[0] < 0 or None in fac \
+            or not all(math.isfinite(v[0]) for v in fac):
         ctx.observe('sd_nzs: outside T >= 0 as a real scalar / classes C D E (not judged)')
         return
     t, f32 = sc_
@@ -822,12 +917,12 @@ def install(ctx):
     g = eqsig.fns.generic
     a = eqsig.fns.average
     d = eqsig.design_spectra
-    for mod, fn, chk, onex in ((g, 'interp2d', _chk_interp2d, None), (g, 'interp_left', _chk_interp_left, _exc_interp_left),
+    for mod, fn, chk, onex in ((g, 'interp2d', _chk_interp2d, _exc_interp2d), (g, 'interp_left', _chk_interp_left, _exc_interp_left),
                                (a, 'calc_roll_av_vals', _chk_rollav, None),
                                (a, 'calc_step_fn_vals_error', _chk_step_error, _exc_step_error),
                                (a, 'calc_step_fn_steps_vals', _chk_levels, None), (d, 'c_h_factor', _chk_c_h, None),
                                (d, 'sd_nzs', _chk_sd, None), (d, 't_eff', _chk_teff, _exc_teff)):
-        attach.wrap(mod, fn, _judged(fn, chk), pre=_enter(fn), on_exception=onex)
+        attach.wrap(mod, fn, _judged(fn, chk), pre=_enter(fn), on_exception=_raised(fn, onex))
 
 
 # ============================================================================================== relations (driver side)
@@ -1015,8 +1110,14 @@ def order_entries(rng, q):
 
 def shape11(rng, n):
     """Series shapes the statement does not forbid (checklist items 10 and 11). Returns (float64 array, name)."""
-    k = int(rng.integers(0, 11))
+    k = int(rng.integers(0, 13))
     t = np.arange(n, dtype=float)
+    if k == 11:
+        return np.zeros(n), 'silent-all-zero'
+    if k == 12:
+        # strictly one-signed: no zero, no sign change (either sign)
+        return (np.abs(rng.normal(size=n)) + float(10.0 ** rng.uniform(-3, 1))) * float(rng.choice([-1.0, 1.0])), \
+            'strictly-one-signed'
     if k == 0:
         x = np.cumsum(np.abs(rng.normal(size=n))) * float(rng.choice([-1.0, 1.0])) + float(rng.normal())
         name = 'monotone'
@@ -1158,10 +1259,14 @@ def gen_queries(rng, nodes, nq=None, below=True):
             j = int(rng.integers(0, m))
             h = float(10.0 ** rng.uniform(-15, -9)) * float(rng.choice([-1.0, 1.0]))
             q[i] = nf[j] * (1.0 + h) if rng.random() < 0.5 else nf[j] + h
-        elif r < 0.71 and m > 1:
+        elif r < 0.70:
+            # within 1e-9 .. 1e-3 of the span of an end node (mostly) or of any node, on either side
+            j = int(rng.choice([0, m - 1, int(rng.integers(0, m))]))
+            q[i] = nf[j] + float(rng.choice([-1.0, 1.0])) * span * float(10.0 ** rng.uniform(-9, -3))
+        elif r < 0.74 and m > 1:
             j = int(rng.integers(0, m - 1))
             q[i] = 0.5 * (nf[j] + nf[j + 1])
-        elif r < 0.85:
+        elif r < 0.87:
             q[i] = nf[0] - span * (10.0 ** rng.uniform(-3, 1))
         else:
             q[i] = nf[-1] + span * (10.0 ** rng.uniform(-3, 1))
@@ -1183,6 +1288,8 @@ def gen_table(rng, m, ncol=None):
     else:
         f = rng.normal(size=(m, ncol))
         f[:, int(rng.integers(ncol))] = float(rng.normal())
+    if rng.random() < 0.02:
+        return np.zeros((m, ncol)) if rng.random() < 0.5 else np.zeros((m, ncol), dtype=np.int64)     # silent table
     if k != 1 and rng.random() < 0.06:
         f = f * np.array([[extreme_scale(rng) for _ in range(ncol)]])          # extreme column scales (linear in the table)
     elif k != 1 and rng.random() < 0.5:
@@ -1234,7 +1341,8 @@ def gen_int_queries(rng, nodes, below=True):
 
 
 def _interp_calls(ctx, eqsig, rng, q, nodes, f, style):
-    w = lambda: {'fn': 'interp2d', 'x': q, 'xf': nodes, 'f': f}
+    w = lambda: {'fn': 'interp2d', 'x': q, 'xf': nodes, 'f': f, 'x_container': _cont(q), 'xf_container': _cont(nodes),
+                 'f_container': _cont(f)}
     c = 'interp2d.inside==columnwise-linear'
     if style == 0:
         return _call(ctx, c, w, eqsig.interp2d, q, nodes, f)
@@ -1305,6 +1413,18 @@ def drive_interp(ctx, eqsig, rng, n_cases):
                  sample={'fn': 'interp2d+interp_left', 'nodes': nodes, 'queries': q[:6], 'table_shape': list(f.shape),
                          'dtypes': [str(q.dtype), str(nodes.dtype), str(f.dtype)]})
         _interp_calls(ctx, eqsig, rng, q, nodes, f, int(rng.integers(3)))
+        u = rng.random()
+        if u < 0.12 and ncls != 'decreasing-nodes':
+            # the docstring calls x and f array_like: queries / nodes as Python lists and tuples (judged like arrays)
+            lt = lambda a: (np.asarray(a).tolist() if rng.random() < 0.5 else tuple(np.asarray(a).tolist()))
+            k = int(rng.integers(3))
+            q_c = lt(q) if k in (0, 2) else q
+            n_c = lt(nodes) if k in (1, 2) else nodes
+            _interp_calls(ctx, eqsig, rng, q_c, n_c, f, int(rng.integers(3)))
+        elif u < 0.135 and not repeated and ncls != 'decreasing-nodes':
+            # the table as a nested list / tuple of rows (raises TypeError on the clean tree: routed to 'pending-finding')
+            f_c = np.asarray(f).tolist() if rng.random() < 0.6 else tuple(tuple(r_) for r_ in np.asarray(f).tolist())
+            _interp_calls(ctx, eqsig, rng, q, nodes, f_c, int(rng.integers(3)))
         if c % 6 == 0:
             # a second, different input of the same shape right away (the first result is re-checked by _call)
             f2 = np.ascontiguousarray(np.asarray(f)[::-1]) + (1 if np.asarray(f).dtype.kind == 'f' else 0)
@@ -1320,9 +1440,11 @@ def drive_interp(ctx, eqsig, rng, n_cases):
         if not all_int and nodes.dtype == np.float32:
             ql = np.maximum(ql.astype(np.float32), nodes[0])
         yk = int(rng.integers(0, 7))
+        if rng.random() < 0.03:
+            yk = 7
         y = [rng.normal(size=m), rng.integers(-9, 10, size=m), rng.normal(size=m).tolist(), None,
              rng.integers(-9, 10, size=m).tolist(), rng.normal(size=m).astype(np.float32),
-             full_range_ints(rng, NARROW[int(rng.integers(4))], m)][yk]
+             full_range_ints(rng, NARROW[int(rng.integers(4))], m), [np.zeros(m), [0] * m, (0.0,) * m][int(rng.integers(3))]][yk]
         y = dress(rng, y)
         xk = int(rng.integers(0, 4))
         xarg = [nodes, np.asarray(nodes).tolist(), nodes, tuple(np.asarray(nodes).tolist())][xk]
@@ -1733,6 +1855,8 @@ def gen_period(rng, sc):
         return 0.0
     if r < 0.30:
         b = float(rng.choice(O.BOUNDARIES[sc]))
+        if rng.random() < 0.35:
+            return float(b * (1.0 + float(rng.choice([-1.0, 1.0])) * float(10.0 ** rng.uniform(-12, -3))))
         return float(b * (1.0 + float(rng.choice([-1e-12, 0.0, 1e-12, -1e-6, 1e-6]))))
     if r < 0.76:
         return float(rng.uniform(0, 6))
@@ -1763,6 +1887,8 @@ def gen_period_container(rng, sc):
     elif o < 0.3:
         fl = [fl[int(j)] for j in rng.integers(0, n, size=n)]
     it = [int(v) for v in rng.choice(INT_PERIODS, size=n, p=[.06, .22, .2, .2, .1, .1, .06, .06])]
+    if rng.random() < 0.03:
+        fl, it = [0.0] * n, [0] * n                                   # every period zero
     if k == 0:
         return dress(rng, np.array(fl, dtype=float)), 'f64-array'
     if k == 1:
@@ -1801,6 +1927,10 @@ def gen_factors(rng):
         z, r = [(0.6, 1.8), (0.6, 1.3), (0.5, 1.4), (0.13, 0.25), (0.13, 1.8), (0.6, 0.25), (0.45, 1.8), (0.39, 1.8)][
             int(rng.integers(8))]
         return z, r, float(rng.choice([1.0, 1.72, 1.36]))
+    if rng.random() < 0.06:
+        h = lambda: float(10.0 ** rng.uniform(-9, -3))
+        return (float(rng.choice([0.13 * (1 + h()), 0.6 * (1 - h())])), float(rng.choice([0.25 * (1 + h()), 1.8 * (1 - h())])),
+                float(rng.choice([1.0 + h(), 1.72 * (1 - h())])))
     return float(rng.uniform(0.13, 0.6)), float(rng.uniform(0.25, 1.8)), float(rng.uniform(1.0, 1.72))
 
 
@@ -1862,13 +1992,19 @@ def drive_spectra_random(ctx, eqsig, rng, n_cases):
                                                  'site_class': sc}, ds.c_h_factor, other, sc)
                 rel_array_scalar(ctx, eqsig, arg, sc)
         # effective period: inside (0, 3], at the corner (two-sided), above the corner (must be rejected)
-        Te = float(rng.uniform(0, 3)) if rng.random() < 0.8 else float(rng.choice([3.0 * (1 - 1e-9), 1.5, 1e-6, 0.56, 2.999,
-                                                                                  1e-12]))
+        u = rng.random()
+        if u < 0.72:
+            Te = float(rng.uniform(0, 3))
+        elif u < 0.86:
+            Te = 3.0 * (1.0 - float(10.0 ** rng.uniform(-11, -3)))          # within 1e-3 of the corner, below it
+        else:
+            Te = float(rng.choice([3.0 * (1 - 1e-9), 1.5, 1e-6, 0.56, 2.999, 1e-12]))
         if Te > 0:
             rel_t_eff_roundtrip(ctx, eqsig, Te, sc, z, r, n, kw=rng.random() < 0.3,
                                 form=['float', 'float', 'float64', 'float32'][int(rng.integers(4))])
         if c % 4 == 1:
-            rel_t_eff_above(ctx, eqsig, 1.0 + float(10.0 ** rng.uniform(-6, 0.5)), sc, z, r, n)
+            rel_t_eff_above(ctx, eqsig, 1.0 + float(10.0 ** (rng.uniform(-6, 0.5) if rng.random() < 0.5 else
+                                                              rng.uniform(-11, -3))), sc, z, r, n)
         if c % 16 == 2:
             rel_t_eff_above(ctx, eqsig, 1.0, sc, z, r, n)       # exactly the corner: either outcome is consistent
         if c % 16 == 3:
@@ -1886,6 +2022,373 @@ def drive_spectra_long(ctx, eqsig, rng):
     ctx.case(core.digest('period-long', sc, arg), cls='spectra-container-long-' + str(arg.dtype))
     _call(ctx, 'c_h_factor*T^2==sd_nzs(unit)', {'fn': 'c_h_factor', 'period': arg, 'period_container': 'ndarray',
                                                'site_class': sc}, eqsig.design_spectra.c_h_factor, arg, sc)
+
+
+# ============================================================================================== results depend on the arguments only
+MAIN_CLAUSE = {'interp2d': 'interp2d.inside==columnwise-linear', 'interp_left': 'interp_left==value-at-greatest-node<=q',
+               'calc_roll_av_vals': 'rollav.forward==window-mean', 'calc_step_fn_vals_error': 'stepfit.error(p=1)==sum|dev|',
+               'calc_step_fn_steps_vals': 'stepfit.levels==side-means', 'c_h_factor': 'c_h_factor*T^2==sd_nzs(unit)',
+               'sd_nzs': 'sd_nzs==c_h*T^2*Z*N*R', 't_eff': 't_eff==T_c*d/d_c'}
+FN_NAMES = list(MAIN_CLAUSE)
+
+
+def _fn_map(eqsig):
+    ds = eqsig.design_spectra
+    return {'interp2d': eqsig.interp2d, 'interp_left': eqsig.interp_left, 'calc_roll_av_vals': eqsig.calc_roll_av_vals,
+            'calc_step_fn_vals_error': eqsig.calc_step_fn_vals_error,
+            'calc_step_fn_steps_vals': eqsig.calc_step_fn_steps_vals, 'c_h_factor': ds.c_h_factor, 'sd_nzs': ds.sd_nzs,
+            't_eff': ds.t_eff}
+
+
+def _same(a, b):
+    """Bit-for-bit equality of two results (arrays: dtype, shape and bytes; tuples element-wise; scalars: type and value,
+    nan == nan)."""
+    if isinstance(a, tuple) or isinstance(b, tuple):
+        return isinstance(a, tuple) and isinstance(b, tuple) and len(a) == len(b) and all(_same(u, v) for u, v in zip(a, b))
+    if isinstance(a, np.ndarray) or isinstance(b, np.ndarray):
+        return isinstance(a, np.ndarray) and isinstance(b, np.ndarray) and a.dtype == b.dtype and a.shape == b.shape \
+            and a.tobytes() == b.tobytes()
+    if type(a) is not type(b):
+        return False
+    try:
+        return bool(a == b) or bool(a != a and b != b)
+    except Exception:
+        return False
+
+
+def _freeze(r):
+    if isinstance(r, np.ndarray):
+        return r.copy()
+    if isinstance(r, tuple):
+        return tuple(_freeze(v) for v in r)
+    return r
+
+
+def _probe(ctx, label, fn, *args, **kwargs):
+    """Call with an input the function may reject (outside the domain of the statement): an exception is counted, never
+    judged as such; the purity of the arguments is judged by the monitors (post-hook on return, exception hook on raise)."""
+    try:
+        r = fn(*args, **kwargs)
+    except Exception as e:
+        ctx.observe('outside the domain: %s -> %s' % (label, type(e).__name__))
+        return False, None
+    ctx.observe('outside the domain: %s -> accepted (value not judged)' % label)
+    return True, r
+
+
+def _side(args, kwargs):
+    return {'args': list(args), 'kwargs': dict(kwargs), 'forms': [_cont(v) for v in args],
+            'kwforms': dict((k, _cont(v)) for k, v in kwargs.items())}
+
+
+def triple(ctx, name, fn, A, B, kwA=None, kwB=None, pattern='', b_outside=None, inplace=None):
+    """f(A); f(B); f(A): the third result equals the first bit-for-bit (the result depends on the arguments only: no
+    memo keyed on too little, no mutable default, nothing kept from the previous call - also after a call that raised).
+    Every one of the calls is judged by the monitors as usual. inplace = (position, values of A, values of B): ONE array
+    object is passed in all three calls and refilled in place between them (a caller's work buffer)."""
+    kwA, kwB = kwA or {}, kwB or {}
+    clause = MAIN_CLAUSE[name]
+    A, B = list(A), list(B)
+    buf = None
+    if inplace is not None:
+        pos, va, vb = inplace
+        buf = np.array(va)
+        A[pos] = buf
+        B[pos] = buf
+    wit = lambda: {'fn': 'triple', 'name': name, 'A': _side(A if buf is None else A[:pos] + [np.array(va)] + A[pos + 1:], kwA),
+                   'B': _side(B if buf is None else B[:pos] + [np.array(vb)] + B[pos + 1:], kwB), 'pattern': pattern,
+                   'b_outside': b_outside, 'inplace_pos': None if buf is None else pos}
+    ok1, r1 = _call(ctx, clause, wit, fn, *A, **kwA)
+    if not ok1:
+        return
+    first = _freeze(r1)
+    if buf is not None:
+        buf[...] = vb
+    if b_outside:
+        _probe(ctx, '%s / %s' % (name, b_outside), fn, *B, **kwB)
+    else:
+        _call(ctx, clause, wit, fn, *B, **kwB)
+    if buf is not None:
+        buf[...] = va
+    ok3, r3 = _call(ctx, clause, wit, fn, *A, **kwA)
+    if not ok3:
+        return
+    ctx.check(_same(first, r3), C_REPEAT, lambda: dict(wit(), first=first, third=r3),
+              '%s: the same arguments gave another result after a call with other arguments (%s%s): first %r, third %r'
+              % (name, pattern, ', which was rejected / outside the domain: ' + b_outside if b_outside else '',
+                 first if not isinstance(first, np.ndarray) else first[:8], r3 if not isinstance(r3, np.ndarray) else r3[:8]))
+
+
+def _corner_of(ctx, eqsig, sc, z, r, n):
+    okc, sd3 = _call(ctx, 't_eff==T_c*d/d_c', {'fn': 'sd_nzs', 'period': O.T_CORNER, 'period_form': 'float', 'site_class': sc,
+                                               'z': z, 'r': r, 'n': n}, eqsig.design_spectra.sd_nzs, O.T_CORNER, sc, z, r, n)
+    return O.corner_displacement(float(sd3)) if okc else None
+
+
+def recipe(ctx, eqsig, rng, name, size):
+    """One in-domain argument list of function `name` (positional, every parameter given) drawn from the recipe of that
+    function; `size` = (n, m, nq, ncol) fixes the shapes so that two draws have the same shapes. Options take their
+    non-default values as often as the default ones."""
+    n, m, nq, ncol = size
+    if name == 'interp2d':
+        nodes, _ = gen_nodes(rng, m_fixed=m)
+        nodes = np.asarray(nodes, dtype=float)
+        return [gen_queries(rng, nodes, nq=nq), nodes, np.asarray(gen_table(rng, m, ncol=ncol), dtype=float)]
+    if name == 'interp_left':
+        nodes, _ = gen_nodes(rng, m_fixed=m)
+        nodes = np.asarray(nodes, dtype=float)
+        y = [rng.normal(size=m), None, rng.integers(-9, 10, size=m).tolist()][int(rng.integers(3))]
+        return [gen_queries(rng, nodes, nq=nq, below=False), nodes, y]
+    if name == 'calc_roll_av_vals':
+        x = gen_roll_series(rng, n)[0]
+        return [x if rng.random() < 0.7 else x.tolist(), int(rng.integers(1, n + 1)), MODES[int(rng.integers(4))]]
+    if name == 'calc_step_fn_vals_error':
+        x = (gen_step_series(rng, n) if rng.random() < 0.7 else shape11(rng, n))[0]
+        if rng.random() < 0.3:
+            x = x * float(10.0 ** rng.uniform(-12, 12))
+        return [x if rng.random() < 0.7 else x.tolist(), 1 + int(rng.integers(2)), [None, None, 'up', 'down'][int(rng.integers(4))]]
+    if name == 'calc_step_fn_steps_vals':
+        x = (gen_step_series(rng, n) if rng.random() < 0.7 else shape11(rng, n))[0]
+        return [x, int(rng.integers(1, n - 1)) if rng.random() < 0.75 else None]
+    sc = SITE_CLASSES[int(rng.integers(3))]
+    if name == 'c_h_factor':
+        per = [gen_period(rng, sc) for _ in range(nq)]
+        return [[np.array(per), per, tuple(per)][int(rng.integers(3))] if rng.random() < 0.8 else per[0], sc]
+    z, r, nn = gen_factors(rng)
+    if name == 'sd_nzs':
+        return [gen_period(rng, sc), sc, z, r, nn]
+    dc = _corner_of(ctx, eqsig, sc, z, r, nn)
+    return [(dc if dc is not None else 0.1) * float(rng.uniform(0.01, 0.45)), sc, z, r, nn]
+
+
+def _draw_size(rng, name):
+    return (int(rng.integers(3, 41)) if rng.random() < 0.9 else int(rng.choice([63, 64, 65, 128, 129])), int(rng.integers(2, 9)),
+            int(rng.integers(1, 7)), int(rng.integers(1, 4)))
+
+
+def _split_kw(rng, name, args):
+    """Pass the trailing parameters by keyword in a third of the calls."""
+    names = SIGS[name][0]
+    if rng.random() < 0.67:
+        return list(args), {}
+    k = int(rng.integers(1, len(args)))
+    return list(args[:k]), dict(zip(names[k:], args[k:]))
+
+
+def drive_repeat(ctx, eqsig, rng, n_cases):
+    """Checklist item 25: f(A); f(B); f(A) for every function. B: another draw of the same recipe with the same shapes, with
+    other shapes, equal to A except for ONE argument (a memo keyed on too little), or written into the very array object
+    that held A (a caller's work buffer: a memo keyed on the identity of the argument)."""
+    fns = _fn_map(eqsig)
+    for c in range(n_cases):
+        name = FN_NAMES[c % len(FN_NAMES)]
+        size = _draw_size(rng, name)
+        A = recipe(ctx, eqsig, rng, name, size)
+        u = rng.random()
+        inplace = None
+        if u < 0.35:
+            B, pattern = recipe(ctx, eqsig, rng, name, size), 'same-shapes'
+        elif u < 0.50:
+            B, pattern = recipe(ctx, eqsig, rng, name, _draw_size(rng, name)), 'other-shapes'
+        elif u < 0.85:
+            other = recipe(ctx, eqsig, rng, name, size)
+            j = int(rng.integers(len(A)))
+            B = list(A)
+            B[j] = other[j]
+            if name == 'calc_roll_av_vals' and j == 1:
+                B[1] = 1 + (A[1] % size[0])                                     # another window width, in 1..len
+            pattern = 'one-argument-differs:' + SIGS[name][0][j]
+        else:
+            other = recipe(ctx, eqsig, rng, name, size)
+            pos = [j for j, v in enumerate(A) if isinstance(v, np.ndarray) and isinstance(other[j], np.ndarray)
+                   and other[j].shape == v.shape and other[j].dtype == v.dtype]
+            if pos:
+                j = pos[int(rng.integers(len(pos)))]
+                B = list(A)
+                inplace = (j, A[j].copy(), other[j].copy())
+                pattern = 'buffer-refilled-in-place:' + SIGS[name][0][j]
+            else:
+                B, pattern = other, 'same-shapes'
+        ctx.case(core.digest('repeat', name, pattern, [np.asarray(v) if isinstance(v, (list, tuple)) else v for v in A],
+                             [np.asarray(v) if isinstance(v, (list, tuple)) else v for v in B]),
+                 nontrivial=True, cls='repeat-%s-%s' % (name, pattern.split(':')[0]))
+        ctx.observe('repeat pattern: ' + pattern.split(':')[0])
+        a, kwa = _split_kw(rng, name, A)
+        b, kwb = _split_kw(rng, name, B)
+        if inplace is not None:
+            a, kwa, b, kwb = A, {}, B, {}
+        triple(ctx, name, fns[name], a, b, kwa, kwb, pattern=pattern, inplace=inplace)
+        if c % 5 == 0 and inplace is None:
+            # temporaries: fresh copies of the arguments that nobody keeps (the memory - and the id() - of a freed
+            # argument is handed to a later one of the same size)
+            for rep_ in range(3):
+                t = recipe(ctx, eqsig, rng, name, size)
+                _call(ctx, MAIN_CLAUSE[name], {'fn': 'triple', 'name': name, 'A': _side(t, {}), 'B': _side(t, {}),
+                                               'pattern': 'temporaries', 'b_outside': None, 'inplace_pos': None},
+                      fns[name], *[np.array(v) if isinstance(v, np.ndarray) else v for v in t])
+
+
+def spoil(rng, name, A):
+    """An argument list the statement does not cover, derived from the in-domain list A: inputs the clean code rejects
+    (exception) and inputs it accepts silently (non-finite entries, windows / split samples outside their range, unknown
+    options). Returns (label, args). Checklist items 19 and 24."""
+    B = [v.copy() if isinstance(v, np.ndarray) else (list(v) if isinstance(v, list) else v) for v in A]
+
+    def poison(v, val):
+        a = np.array(v, dtype=float)
+        a[int(rng.integers(a.size))] = val
+        return a if isinstance(v, np.ndarray) or rng.random() < 0.5 else a.tolist()
+    bad = float(rng.choice([np.nan, np.inf, -np.inf]))
+    k = int(rng.integers(6))
+    if name == 'interp2d':
+        if k == 0:
+            B[0] = poison(B[0], bad)
+            return 'non-finite query', B
+        if k == 1:
+            B[2] = poison(B[2].ravel(), bad).reshape(B[2].shape) if isinstance(B[2], np.ndarray) else B[2]
+            return 'non-finite table entry', B
+        if k == 2:
+            B[2] = B[2][:-1]
+            return 'table with fewer rows than nodes', B
+        if k == 3:
+            B[1] = B[1][:-1]
+            return 'table with more rows than nodes', B
+        if k == 4:
+            B[0] = B[0][:0]
+            return 'no queries', B
+        B[1] = poison(B[1], np.nan)
+        return 'nan node', B
+    if name == 'interp_left':
+        q, nodes = np.array(B[0], dtype=float), B[1]
+        if k <= 2:
+            # some queries below the first node (rejected by an assert), in array / list / tuple form
+            span = float(nodes[-1] - nodes[0]) or 1.0
+            q[int(rng.integers(q.size))] = nodes[0] - span * float(10.0 ** rng.uniform(-9, 1))
+            B[0] = [q, q.tolist(), tuple(q.tolist())][k]
+            return 'queries below the first node (%s)' % _cont(B[0]), B
+        if k == 3:
+            B[0] = poison(q, np.nan)
+            return 'nan query', B
+        if k == 4:
+            B[0] = q[:0]
+            return 'no queries', B
+        if B[2] is not None:
+            B[2] = B[2][:-1]
+            return 'values shorter than nodes', B
+        B[1] = poison(nodes, np.nan)
+        return 'nan node', B
+    if name == 'calc_roll_av_vals':
+        n = len(B[0])
+        if k == 0:
+            B[1] = int(rng.choice([0, -1, -n]))
+            return 'window <= 0', B
+        if k == 1:
+            B[1] = n + int(rng.integers(1, 5))
+            return 'window > len', B
+        if k == 2:
+            B[1] = float(B[1]) + 0.5
+            return 'window not integer-valued', B
+        if k == 3:
+            B[2] = str(rng.choice(['middle', 'Forward', '', 'central']))
+            return 'unknown mode', B
+        if k == 4:
+            B[0] = poison(B[0], bad)
+            return 'non-finite sample', B
+        B[0] = np.asarray(B[0], dtype=float)[:0] if rng.random() < 0.5 else np.asarray(B[0], dtype=float).reshape(1, -1)
+        return 'empty or 2-d series', B
+    if name == 'calc_step_fn_vals_error':
+        if k <= 1:
+            B[0] = poison(B[0], bad)
+            return 'non-finite sample', B
+        if k == 2:
+            B[0] = np.asarray(B[0], dtype=float)[:int(rng.integers(0, 2))]
+            return 'fewer than two samples', B
+        if k == 3:
+            B[1] = [0, 3, 0.5, -1][int(rng.integers(4))]
+            return 'power outside {1, 2}', B
+        if k == 4:
+            B[2] = str(rng.choice(['UP', 'left', '']))
+            return 'unknown direction', B
+        B[0] = np.asarray(B[0], dtype=float).reshape(1, -1)
+        return '2-d series', B
+    if name == 'calc_step_fn_steps_vals':
+        n = len(B[0])
+        if k <= 3:
+            B[1] = [0, n - 1, n + int(rng.integers(0, 5)), -1][k]
+            return 'split sample without samples on both sides', B
+        B[0] = poison(B[0], bad)
+        B[1] = int(rng.integers(1, n - 1))
+        return 'non-finite sample', B
+    if name == 'c_h_factor':
+        per = B[0]
+        if k <= 1 and not _is_float(per):
+            a = np.array(per, dtype=float)
+            a[int(rng.integers(a.size))] = -float(10.0 ** rng.uniform(-9, 1))
+            B[0] = a if isinstance(per, np.ndarray) or k == 0 else a.tolist()
+            return 'negative period in a %s' % _cont(B[0]), B
+        if k == 2:
+            B[1] = [None, 'A', 'B', 'c', 'CD'][int(rng.integers(5))]
+            return 'unknown site class', B
+        if k == 3 and not _is_float(per):
+            B[0] = poison(per, bad)
+            return 'non-finite period', B
+        if k == 4:
+            B[0] = [2, np.float32(0.5), np.array(0.5), np.int64(1)][int(rng.integers(4))]
+            return 'scalar form outside the signature (%s)' % _cont(B[0]), B
+        B[0] = -1.0 if _is_float(per) else []
+        return 'negative scalar / empty container', B
+    if name == 'sd_nzs':
+        if k == 0:
+            B[0] = -float(10.0 ** rng.uniform(-9, 1))
+            return 'negative period', B
+        if k == 1:
+            B[1] = [None, 'A', 'B', 'c'][int(rng.integers(4))]
+            return 'unknown site class', B
+        if k == 2:
+            B[0] = bad
+            return 'non-finite period', B
+        if k == 3:
+            B[0] = np.array([0.5, 1.0])
+            return 'array of periods', B
+        if k == 4:
+            B[0] = [B[0]]
+            return 'list of one period', B
+        B[2] = [bad, 'z'][int(rng.integers(2))]
+        return 'non-finite / non-numeric factor', B
+    if k == 0:
+        B[1] = [None, 'A', 'B', 'c'][int(rng.integers(4))]
+        return 'unknown site class', B
+    if k == 1:
+        B[0] = bad
+        return 'non-finite displacement', B
+    if k == 2:
+        B[0] = -B[0]
+        return 'negative displacement', B
+    if k == 3:
+        B[0] = B[0] * 1e3
+        return 'displacement above the corner', B
+    if k == 4:
+        B[2] = 0.0
+        return 'zero hazard factor', B
+    B[0] = np.array([B[0], B[0]])
+    return 'array of displacements', B
+
+
+def drive_rejected(ctx, eqsig, rng, n_cases):
+    """Checklist items 19 / 24: inputs outside the domain - rejected with an exception or accepted silently - for every
+    function: the arguments stay bit-for-bit as they were (also after the raise) and the call leaves nothing behind:
+    f(A); f(outside); f(A) gives the first result again."""
+    fns = _fn_map(eqsig)
+    for c in range(n_cases):
+        name = FN_NAMES[c % len(FN_NAMES)]
+        size = _draw_size(rng, name)
+        A = recipe(ctx, eqsig, rng, name, size)
+        label, B = spoil(rng, name, A)
+        ctx.case(core.digest('outside', name, label, [np.asarray(v) if isinstance(v, (list, tuple)) else v for v in A]),
+                 nontrivial=True, cls='outside-domain-%s' % name)
+        b, kwb = _split_kw(rng, name, B)
+        triple(ctx, name, fns[name], A, b, {}, kwb, pattern='after-outside-domain-call', b_outside=label)
+
 
 
 def scan_grid(tier):
@@ -1936,6 +2439,8 @@ def run_shard(ctx):
     drive_rollav(ctx, eqsig, rng, per(8000 if quick else 80000))
     drive_stepfit(ctx, eqsig, rng, per(6400 if quick else 64000))
     drive_spectra_random(ctx, eqsig, rng, per(4800 if quick else 48000))
+    drive_repeat(ctx, eqsig, rng, per(9600 if quick else 96000))
+    drive_rejected(ctx, eqsig, rng, per(6400 if quick else 64000))
     if ctx.shard in (6, 7, 10, 11) or not quick:
         drive_big_products(ctx, eqsig, rng)
     # a few inputs past 2**16 (quick: one kind per shard; thorough: several of each)
@@ -1987,35 +2492,55 @@ def replay(w):
             return None
         v = _as_container(v, w.get(cont_key)) if cont_key else np.asarray(v)
         return _relayout(v, lay.get(lkey or key, []))
+    def run(f, *a, **k):
+        # the witness of a call that raised (purity after the raise): the raise itself is not judged again
+        if w.get('raised') is not None:
+            return _probe(ctx, 'replay', f, *a, **k)
+        return _call(ctx, clause, w, f, *a, **k)
     if fn == 'interp2d':
-        _call(ctx, clause, w, eqsig.interp2d, arr('x'), arr('xf'), arr('f'))
+        run(eqsig.interp2d, arr('x', 'x_container' if w.get('x_container') else None),
+              arr('xf', 'xf_container' if w.get('xf_container') else None),
+              arr('f', 'f_container' if w.get('f_container') else None))
     elif fn == 'interp_left':
         xc = w.get('x0_container')
         x0 = _to_form(w['x0'], xc) if xc in SCALAR_FORMS and xc != 'ndarray' else arr('x0', 'x0_container')
-        _call(ctx, clause, w, eqsig.interp_left, x0, arr('x', 'x_container'), arr('y', 'y_container'))
+        run(eqsig.interp_left, x0, arr('x', 'x_container'), arr('y', 'y_container'))
     elif fn == 'calc_roll_av_vals':
-        _call(ctx, clause, w, eqsig.calc_roll_av_vals, arr('values', 'container'), w['steps'], mode=w['mode'])
+        run(eqsig.calc_roll_av_vals, arr('values', 'container'), w['steps'], mode=w['mode'])
     elif fn == 'calc_step_fn_vals_error':
-        _call(ctx, clause, w, eqsig.calc_step_fn_vals_error, arr('values', 'container'), pow=w['pow'])
+        run(eqsig.calc_step_fn_vals_error, arr('values', 'container'), pow=w['pow'])
     elif fn == 'calc_step_fn_steps_vals':
         vals = arr('values', 'container')
         if w.get('ind') is None:
-            _call(ctx, clause, w, eqsig.calc_step_fn_steps_vals, vals)
+            run(eqsig.calc_step_fn_steps_vals, vals)
         else:
-            _call(ctx, clause, w, eqsig.calc_step_fn_steps_vals, vals, w['ind'])
+            run(eqsig.calc_step_fn_steps_vals, vals, w['ind'])
     elif fn == 'c_h_factor':
         pc = w.get('period_container')
         p = float(w['period']) if pc in ('float', 'float64') else arr('period', 'period_container')
-        _call(ctx, clause, w, ds.c_h_factor, p, w['site_class'])
+        run(ds.c_h_factor, p, w['site_class'])
     elif fn == 'sd_nzs':
-        _call(ctx, clause, w, ds.sd_nzs, _to_form(w['period'], w.get('period_form', 'float')), w['site_class'], w['z'],
+        run(ds.sd_nzs, _to_form(w['period'], w.get('period_form', 'float')), w['site_class'], w['z'],
               w['r'], w['n'])
     elif fn == 't_eff':
-        _call(ctx, clause, w, ds.t_eff, _to_form(w['displacement'], w.get('displacement_form', 'float')), w['site_class'],
+        run(ds.t_eff, _to_form(w['displacement'], w.get('displacement_form', 'float')), w['site_class'],
               w['z'], w['r'], w['n'])
+    elif fn == 'triple':
+        f = _fn_map(eqsig).get(w['name'])
+        if f is None:
+            return ['unknown function %r in triple witness' % w['name']]
+
+        def side(sd):
+            return ([_to_form(v, fm) if fm in SCALAR_FORMS and fm != 'ndarray' else v for v, fm in zip(sd['args'], sd['forms'])],
+                    dict((k, _to_form(v, sd.get('kwforms', {}).get(k)) if sd.get('kwforms', {}).get(k) in SCALAR_FORMS
+                          and sd.get('kwforms', {}).get(k) != 'ndarray' else v) for k, v in sd['kwargs'].items()))
+        (a, kwa), (b, kwb) = side(w['A']), side(w['B'])
+        pos = w.get('inplace_pos')
+        HELD.clear()
+        triple(ctx, w['name'], f, a, b, kwa, kwb, pattern=w.get('pattern', ''), b_outside=w.get('b_outside'),
+               inplace=None if pos is None else (pos, np.array(a[pos]), np.array(b[pos])))
     elif fn == 'held_result':
-        f = {'interp2d': eqsig.interp2d, 'interp_left': eqsig.interp_left, 'calc_roll_av_vals': eqsig.calc_roll_av_vals,
-             'calc_step_fn_vals_error': eqsig.calc_step_fn_vals_error, 'c_h_factor': ds.c_h_factor}.get(w['name'])
+        f = _fn_map(eqsig).get(w['name'])
         if f is None:
             return ['unknown function %r in held_result witness' % w['name']]
         HELD.clear()
